@@ -35,3 +35,6 @@ register_object("HttpBeaconClient", {"task_map": "any", "beacon_id": "any", "cou
 register_object("C2Http", {"get_verb": "bytes", "submit_verb": "bytes", "submit_uri": "bytes", "get_uris": "tuplelist[bytes]",
                            "transform_get": "obj:HttpDataTransform", "transform_submit": "obj:HttpDataTransform",
                            "transform_response": "obj:HttpDataTransform"}, "dissect.cobaltstrike.c2")
+
+register_object("StringIterator", {"buffer": "clist", "index": "int"}, "dissect.cobaltstrike.c2profile")
+register_record("Token", {"type": "str", "value": "str"}, "lark")
